@@ -445,6 +445,40 @@ def socket_case(arg):
     return oc
 
 
+def unrepresentable_case(arg):
+    """Owner ids that do not fit the 32 bit id table (PAX records, base-256 header fields): the archive must be refused, not stored with
+    the ids reduced modulo 2^32."""
+    idx, tier = arg
+    oc = core.Outcome("ids-%d" % idx)
+    try:
+        B = build.build("asan")
+        big = [(1 << 32) + 1, (1 << 33) + 7, (1 << 32), (1 << 40) + 5][idx % 4]
+        dialect, numeric = (("pax", "pax"), ("gnu", "auto"), ("oldgnu", "auto"))[idx % 3]
+        which = ("uid", "gid")[(idx // 2) % 2]
+        w = tarmodel.TarWriter(dialect, numeric=numeric)
+        w.add(b"before", Node("file", 0o644, data=[("bytes", b"b")]))
+        w.add(b"f", Node("file", 0o644, uid=big if which == "uid" else 5, gid=big if which == "gid" else 6, data=[("bytes", b"x")]))
+        tar = w.finish()
+        oc.features = ("unrepresentable-id", dialect, which, big)
+        with core.Scratch("c04u") as work:
+            out = os.path.join(work, "o.sqfs")
+            res = core.run_tool([B["tar2sqfs"], "-q", "-f", out], stdin=tar, timeout=120)
+            oc.inc("unrepresentable_id_runs")
+            if res.san:
+                oc.violate(res.san, "tar2sqfs", {"stderr.txt": res.err, "a.tar": tar})
+            elif res.rc == 0:
+                m = sqfsimg.tree_model(sqfsimg.parse(open(out, "rb").read()))
+                oc.violate("tar2sqfs:unrepresentable-id-accepted:%s" % dialect, "%s=%d stored as %r" % (which, big, m.get(b"f", {}).get(which)), {"a.tar": tar})
+            else:
+                oc.inc("unrepresentable_id_refused")
+                if os.path.exists(out):
+                    oc.violate("tar2sqfs:unrepresentable-id:output-left-behind", "")
+        oc.sample = {"case": "%s %s=%d" % (dialect, which, big)}
+    except Exception:
+        oc.inconclusive.append("harness exception: %s" % traceback.format_exc()[-900:])
+    return oc
+
+
 def _canon(p):
     """Path canonicalisation as specified (C18): None iff a component is '..'; no leading/trailing/repeated slashes, no '.' components."""
     comps = [c for c in p.split(b"/") if c not in (b"", b".")]
@@ -470,6 +504,8 @@ def main(tier):
     n = 200 if tier == "quick" else 2500
     items = [(i, tier) for i in range(n)]
     for oc in core.pmap(socket_case, [(i, tier) for i in range(6 if tier == "quick" else 48)]):
+        rep.add(oc)
+    for oc in core.pmap(unrepresentable_case, [(i, tier) for i in range(12)]):
         rep.add(oc)
     only = os.environ.get("VERIF_ONLY")
     if only:
